@@ -746,7 +746,12 @@ func (root *Root) resolveFragRef(
 	depth int) (ea []error) {
 
 	if sel.Fragment.Condition == nil || sel.Fragment.Condition == t {
-		ea = root.resolveSels(obj, vars, sel.Fragment.Sels, t, result, depth)
+		if depth <= 0 {
+			// A fragment that includes itself, directly or indirectly, never
+			// gets to a field which is where the depth is checked otherwise.
+			return []error{resWarnp(sel, "fragment %s is nested too deeply", sel.Fragment.Name)}
+		}
+		ea = root.resolveSels(obj, vars, sel.Fragment.Sels, t, result, depth-1)
 		if 0 < len(ea) {
 			Errors(ea).in(fmt.Sprintf("fragment at %d:%d", sel.Line(), sel.Column()))
 		}
